@@ -50,6 +50,7 @@ type Contract struct {
 	Inline      bool
 	Trusted     bool
 	MemWrites   bool
+	Guards      []*Guard
 	LoopInv     map[int][]*Clause
 	Ghost       []*GhostStmt
 	File        string
@@ -112,6 +113,11 @@ func (c *Contract) AllTags() []string {
 			}
 		}
 	}
+	for _, g := range c.Guards {
+		for _, t := range g.Tags {
+			m[t] = true
+		}
+	}
 	for _, g := range c.Ghost {
 		if g.Clause != nil {
 			for _, t := range g.Clause.Tags {
@@ -129,7 +135,14 @@ func (c *Contract) AllTags() []string {
 
 var keywords = map[string]bool{"func": true, "requires": true, "ensures": true, "assigns": true, "nopanic": true,
 	"inline": true, "trusted": true, "loop": true, "at": true, "spec": true, "pred": true, "ghost": true,
-	"lemma": true, "memwrites": true, "tags": true, "let": true}
+	"lemma": true, "memwrites": true, "tags": true, "let": true, "guarded": true}
+
+// Guard: fields of the receiver that may only be accessed while Mutex is held.
+type Guard struct {
+	Mutex  string
+	Fields []string
+	Tags   []string
+}
 
 var tagRe = regexp.MustCompile(`^\[([A-Z0-9, ]+)\]\s*`)
 var labelRe = regexp.MustCompile(`^([A-Za-z_][A-Za-z0-9_]*):(?:[^:]|$)`)
@@ -274,6 +287,18 @@ func (cs *contractSet) parseFile(root, file string) error {
 			cur.Trusted = true
 		case "memwrites":
 			cur.MemWrites = true
+		case "guarded":
+			// guarded [tags] <mutexField>: f1, f2
+			tags, r2 := parseTags(rest)
+			i := strings.Index(r2, ":")
+			if i < 0 {
+				return fmt.Errorf("%s:%d: guarded needs ':'", file, c.line)
+			}
+			g := &Guard{Mutex: strings.TrimSpace(r2[:i]), Tags: tags}
+			for _, f := range strings.Split(r2[i+1:], ",") {
+				g.Fields = append(g.Fields, strings.TrimSpace(f))
+			}
+			cur.Guards = append(cur.Guards, g)
 		case "requires", "ensures":
 			cl, err := parseClause(rest, file, c.line)
 			if err != nil {
